@@ -723,6 +723,8 @@ class CallMixin:
             vals["exc"] = payload
         vals["exc_class"] = lift(cls)
         for name in sorted(n for n in c.methods if n.startswith("on_raise")):
+            if _refuted_known(f"{c.target}/post.{name}"):
+                continue  # an exceptional-exit clause recorded as refuted (known finding) is never assumed by callers
             self.assume(truthy(self.spec_eval(c, name, vals)))
         raise RaiseSig(VExc(cls, payload))
 
@@ -783,6 +785,16 @@ class CallMixin:
         if not isinstance(obj, VRec):
             raise Unsupported(f"{c.target}: cannot resolve modifies path {path!r}")
         cur = obj.fields.get(last)
+        # the callee contract's DECLARED type of the modified field (e.g. a list that is still `[]` / a `{}` placeholder
+        # in the caller gets the declared element type / representation)
+        decl = c.types.get(parts[0])
+        for p in parts[1:]:
+            decl = decl.fields.get(p) if isinstance(decl, Rec) else None
+        if isinstance(cur, VList) and cur.elem is None and isinstance(decl, SeqOf):
+            cur.elem = decl.elem
+        if isinstance(decl, Opaque) and not isinstance(cur, VOpaque):
+            obj.fields[last] = decl.fresh(path)
+            return
         if isinstance(cur, (VList, VDict, VRec)):
             self.havoc_value(cur, path)
         else:
